@@ -72,3 +72,32 @@ Theorem C07_statement_order :
   statement_holes sk_try_into_body_plain = ["pre_init"; "init"].
 Proof. exact statement_order. Qed.
 Print Assumptions C07_statement_order.
+
+(* by-reference = owned for WHOLE bodies (Lemmas/KindClass.v): given the same resolved views - the lookups are where ownership
+   legitimately matters - the generated body (infallible and fallible form) does not depend on the kind within its class, for every
+   struct and enum without #[parent] members, through the whole fuelled descent, ghost lines, nested literals, match arms, update,
+   quick return.  (With #[parent] members the flavours differ by design: `(&value).into()` vs `value.into()`, the
+   ownership-specific instruction inside #[parent(..)], the into_existing templates.) *)
+From O2o.Lemmas Require Import KindClass.
+
+Theorem C07_ref_whole_body : forall d c k',
+    same_class (c_kind c) k' -> dview_no_parents d ->
+    main_code_block d (set_kind c k') = main_code_block d c /\ main_code_block_ok d (set_kind c k') = main_code_block_ok d c.
+Proof. exact body_same_class. Qed.
+Print Assumptions C07_ref_whole_body.
+
+(* fallible = infallible for whole bodies (Lemmas/FallibleClass.v), same scope; the fallible skeleton then wraps the body in Ok(..)
+   (C07_try_body) *)
+From O2o.Lemmas Require Import FallibleClass.
+
+Theorem C07_try_whole_body : forall d c b,
+    dview_no_parents d -> main_code_block d (set_fallible c b) = main_code_block d c.
+Proof. exact body_same_fallible. Qed.
+Print Assumptions C07_try_whole_body.
+
+(* both at once: the body of any flavour of a class equals the body of any other, given the same views *)
+Theorem C07_flavours_whole_body : forall d c k' b,
+    same_class (c_kind c) k' -> dview_no_parents d ->
+    main_code_block d (set_fallible (set_kind c k') b) = main_code_block d c.
+Proof. exact body_same_flavour. Qed.
+Print Assumptions C07_flavours_whole_body.
